@@ -498,6 +498,54 @@ func (ex *Exec) evalCall(e *Expr, env *Env) Val {
 				unsup("contract: typeis needs a type name string")
 			}
 			return ex.boolV(ts.Eq(iv.Tag, ex.typeTagByName(tn.Name)))
+		case "visited", "iterdom":
+			// visited(k) / iterdom(k): state of the innermost map iteration of this frame; visited(n, k) names the n-th
+			if env.fr == nil || len(env.fr.iters) == 0 {
+				unsup("contract: %s outside a map iteration", f.Name)
+			}
+			idx := len(env.fr.iters) - 1
+			karg := args[0]
+			if len(args) == 2 {
+				n := ex.eval1(args[0], env).(Scalar)
+				if n.Const == nil {
+					unsup("contract: iteration ordinal must be a constant")
+				}
+				idx = int(n.Const.Int64())
+				karg = args[1]
+			}
+			if idx < 0 || idx >= len(env.fr.iters) {
+				return ex.boolV(ts.False())
+			}
+			cell := env.fr.iters[idx]
+			iv, ok := ex.iterOf(env.fr, cell)
+			if !ok {
+				unsup("contract: iterator not found")
+			}
+			kv := ex.eval1(karg, env)
+			kt := iv.R.mt.Key()
+			if c, isConst := kv.(Scalar); isConst && c.T == nil {
+				kv = Scalar{T: ex.constTerm(c.Const, kt), Typ: kt}
+			}
+			k := ex.keyTerm(kv, kt)
+			if f.Name == "iterdom" {
+				return ex.boolV(ts.Select(iv.Dom, k))
+			}
+			return ex.boolV(ts.Select(ex.st.cells[cell].(Scalar).T, k))
+		case "haskey":
+			// haskey(m, k): k is in the domain of map m
+			mv := ex.eval1(args[0], env)
+			ms, ok := mv.(Scalar)
+			if !ok || ms.Typ == nil {
+				unsup("contract: haskey on %T", mv)
+			}
+			mt := under(ms.Typ).(*types.Map)
+			kv := ex.eval1(args[1], env)
+			if c, isConst := kv.(Scalar); isConst && c.T == nil {
+				kv = Scalar{T: ex.constTerm(c.Const, mt.Key()), Typ: mt.Key()}
+			}
+			r := ex.mapRegs(ms.Typ)
+			_, present := ex.mapRead(r, ms.T, ex.keyTerm(kv, mt.Key()))
+			return ex.boolV(present)
 		case "implements":
 			v := ex.eval1(args[0], env)
 			iv, ok := v.(IfaceV)
